@@ -63,6 +63,9 @@ def prelude(ft: Features):
             ('block', [('e', 'rule-r.0', (TH, V('ph0'))), ('a', 'rule-r', (TH, A('\\f', V('ph0'))))]),
             ('block', [('e', 'rule-s.0', (TH, V('ph0'))), ('e', 'rule-s.1', (TH, IMP(V('ph0'), V('ph1')))),
                        ('a', 'rule-s', (TH, A('\\g', V('ph1'), V('ph0'), A('c0'))))]),
+            # a rule whose conclusion is ground while its hypotheses are schematic
+            ('block', [('e', 'rule-t.0', (TH, A('\\f', V('ph0')))),
+                       ('a', 'rule-t', (TH, A('\\g', A('c1'), A('c0'), A('c1'))))]),
         ]
     return st
 
@@ -146,6 +149,13 @@ def derivations(ft: Features, height: int, npool: int, max_per_level: int = 400)
                 if add(A('\\f', t1), apply('rule-r', frames, {'ph0': t1}, [tr1]), h):
                     new += 1
         if ft.rules:
+            for t1, tr1, h1 in cur:
+                if t1[0] == 'app' and t1[1] == '\\f' and h1 == h - 1:
+                    # every proof of the ground conclusion is a different derivation: key it by its premise
+                    key = 'rule-t:' + mmref.term_str(t1)
+                    if key not in thms:
+                        thms[key] = (A('\\g', A('c1'), A('c0'), A('c1')), apply('rule-t', frames, {'ph0': t1[2][0]}, [tr1]), h)
+                        new += 1
             for t1, tr1, h1 in cur:
                 for t2, tr2, h2 in cur:
                     if new >= max_per_level:
